@@ -388,19 +388,19 @@ def run(ctx: Ctx, pool, col=None):
                    {"kind": "range", "function": f.source(), "call": expr, "opt": opt, "compiled": comp, "cpython": interp,
                     "model": m})
     # correspondence breaks without a failing input among the driven cases
-    if skel_bad and not ctx.violations:
+    if skel_bad:
         name, (ms, rs) = sorted(skel_bad.items())[0]
         f = next(x for x in fns if x.name == name)
-        ctx.violation(f"range-loop skeleton of the final IR differs from ForRange.emit for operand types {f.mst}/{f.met}, "
-                      f"step {f.step}: IR `{rs}`, model `{ms}`; no driven triple shows a difference from CPython",
-                      {"broken": "translation tie: final IR loop skeleton vs Model/ForRange.lean emit", "kind": "range",
-                       "function": f.source(), "ir": rs, "model": ms}, found_input=False)
-    if model_bad and not ctx.violations:
+        violation_nf(ctx, "fr-skel", f"range-loop skeleton of the final IR differs from ForRange.emit for operand types {f.mst}/{f.met}, "
+                     f"step {f.step}: IR `{rs}`, model `{ms}`",
+                     {"broken": "translation tie: final IR loop skeleton vs Model/ForRange.lean emit", "kind": "range",
+                      "function": f.source(), "ir": rs, "model": ms})
+    if model_bad:
         f, a, b, expr, comp, m = model_bad[0]
-        ctx.violation(f"range-loop model predicts {m.split(' visit=')[1]} for {expr} but compiled code (= CPython) gives {comp}",
-                      {"broken": "correspondence Model/ForRange.lean loop vs compiled code", "kind": "range",
-                       "function": f.source(), "call": expr, "opt": opt}, found_input=False)
-    if rejected and not ctx.violations:
+        violation_nf(ctx, "fr-model", f"range-loop model predicts {m.split(' visit=')[1]} for {expr} but compiled code (= CPython) gives {comp}",
+                     {"broken": "correspondence Model/ForRange.lean loop vs compiled code", "kind": "range",
+                      "function": f.source(), "call": expr, "opt": opt})
+    if rejected:
         f, why = rejected[0]
         violation_nf(ctx, "fr-rejected", f"mypyc rejects {len(rejected)} range-loop function(s) whose literals fit the index type "
                      f"Model/ForRange.lean computes (operand types {f.mst}/{f.met} -> {f.idx}): {why}",
